@@ -176,6 +176,9 @@ func oracleReads(probes [][]byte) Oracle {
 		if v := checkReader("working", mutReader{t}, m.WorkC, probes); v != nil {
 			return v
 		}
+		if got, want := t.IsEmpty(), len(m.WorkC) == 0; got != want {
+			return viol("reads", "working.IsEmpty() = %v with %d keys in the working state", got, len(m.WorkC))
+		}
 		cands := m.VersionCandidates(0)
 		for ci := len(cands) - 1; ci >= 0; ci-- {
 			ver := cands[ci] // newest first, see Model.VersionsDesc
